@@ -309,6 +309,11 @@ theorem c14_code_policy_strict_iff : CodePolicyStrict ↔ Gen.C14.policyOwnCurso
 /-- **the full statement holds of the current tree** (the regenerated fact says: `PickOne` keeps its own cursors) -/
 theorem c14_forwarded_strict : CodeForwardedStrict := c14_code_forwarded_strict_iff.2 (by decide)
 
+/-- **the per-policy statement holds of the current tree** (the regenerated fact says: every dispatch policy keeps its own
+    cursors, fix 511eb58): whatever other policies with the same subset do in between, the requests one policy forwards are
+    spread floor/ceil over its ready endpoints. -/
+theorem c14_policy_strict : CodePolicyStrict := c14_code_policy_strict_iff.2 (by decide)
+
 /-- **concurrent pickers**: for every schedule (interleaving of the threads' atomic actions) that lets all `n` pickers
     finish, the order `log` of their atomic adds is a permutation of the pickers, each picker's result is exactly what the
     *sequential* `popMany` gives it in that order, and the cursors end where the sequential run ends — so the counting
